@@ -115,7 +115,7 @@ impl Item {
     pub fn from_json(j: &J) -> Item {
         Item {
             len: j["len"].as_u64().unwrap() as usize,
-            entropy: if j["entropy"] == "Low" { Entropy::Low } else if j["entropy"] == "Tail" { Entropy::Tail } else { Entropy::High },
+            entropy: if j["entropy"] == "Low" { Entropy::Low } else if j["entropy"] == "Tail" { Entropy::Tail } else if j["entropy"] == "LastByte" { Entropy::LastByte } else { Entropy::High },
             hint: match j["hint"].as_str().unwrap() {
                 "Yes" => Hint::Yes,
                 "No" => Hint::No,
